@@ -2,8 +2,38 @@
 
 package base
 
-// Test-only seam for the C10 runtime monitor (/verif/harness/c10). Inert
-// without the `verif` build tag. Read-only probe, no logic.
+import "github.com/andres-erbsen/clock"
+
+// Test-only seams for the C10 runtime monitor (/verif/harness/c10). Inert
+// without the `verif` build tag. Read-only probe and a pass-through wrapper,
+// no logic.
+
+// verifC10GatedMap is a FileMap that calls gate(name) on entry to TryStore
+// (i.e. after the caller loaded its entry from disk and before the entry
+// reaches the map) and otherwise delegates everything. The harness uses it to
+// hold one goroutine at that preemption point.
+type verifC10GatedMap struct {
+	FileMap
+	gate func(name string)
+}
+
+func (m *verifC10GatedMap) TryStore(name string, entry FileEntry, f func(string, FileEntry) bool) bool {
+	m.gate(name)
+	return m.FileMap.TryStore(name, entry, f)
+}
+
+// VerifC10NewGatedLRUFileStore is NewLRUFileStore / NewCASFileStoreWithLRUMap
+// with the gated file map.
+func VerifC10NewGatedLRUFileStore(size int, clk clock.Clock, cas bool, gate func(name string)) FileStore {
+	var factory FileEntryFactory = NewLocalFileEntryFactory()
+	if cas {
+		factory = NewCASFileEntryFactory()
+	}
+	return &localFileStore{
+		fileEntryFactory: factory,
+		fileMap:          &verifC10GatedMap{FileMap: NewLRUFileMap(size, clk), gate: gate},
+	}
+}
 
 // VerifC10MapOrder returns the names currently held in the store's file map,
 // most recently accessed first. ok is false when s is not a local file store.
@@ -12,7 +42,11 @@ func VerifC10MapOrder(s FileStore) (names []string, ok bool) {
 	if !ok {
 		return nil, false
 	}
-	fm, ok := ls.fileMap.(*lruFileMap)
+	inner := ls.fileMap
+	if g, isGated := inner.(*verifC10GatedMap); isGated {
+		inner = g.FileMap
+	}
+	fm, ok := inner.(*lruFileMap)
 	if !ok {
 		return nil, false
 	}
